@@ -6,6 +6,7 @@ import Driver.KanaOps
 import Driver.TrieOps
 import Driver.KkcOps
 import Driver.ServerOps
+import Driver.SkkOps
 
 namespace Driver
 open Chokan
@@ -26,19 +27,23 @@ structure State where
   trie : Option Chokan.Trie.Trie := none
   kkc : KkcState := {}
   srv : Option Chokan.Server.State := none
+  tankan : List (Chokan.Dic.Str × List Chokan.Dic.Word) := []
 
 def handle (st : State) (line : String) : State × String :=
   let (op, arg) := splitOp line
   match trieOps st.trie op arg with
   | some (t, r) => ({ st with trie := t }, r.trimAsciiEnd.toString)
   | none =>
+    match builderOps st.kkc st.tankan op arg with
+    | some (k, tk, r) => ({ st with kkc := k, tankan := tk }, r.trimAsciiEnd.toString)
+    | none =>
     match serverOps st.srv op arg with
     | some (sv, r) => ({ st with srv := sv }, r.trimAsciiEnd.toString)
     | none =>
     match kkcOps st.kkc op arg with
     | some (k, r) => ({ st with kkc := k }, r.trimAsciiEnd.toString)
     | none =>
-    let r := ((romaOps op arg).orElse fun _ => dicOps op arg).orElse fun _ => kanaOps op arg
+    let r := (((romaOps op arg).orElse fun _ => dicOps op arg).orElse fun _ => kanaOps op arg).orElse fun _ => skkOps op arg
     match r with
     | some r => (st, r.trimAsciiEnd.toString)
     | none => (st, "bad-op")
